@@ -389,11 +389,16 @@ def check(prop, tier, seed):
     # chunk boundaries: schedules (short cases, few events each) go in larger chunks of their own
     bounds = []
     start = 0
+    def kind_of(c):
+        r = c.get("run")
+        return r if r in ("sched", "key", "ident") else ""
+    # textual cases (one or two events each, judged in microseconds) go in chunks of 20,000
+    LIM = {"sched": max(chunk, 700), "key": 20000, "ident": max(chunk, 5000)}
     while start < len(cases):
-        sched = cases[start].get("run") == "sched"
-        lim = max(chunk, 700) if sched else chunk
+        kind = kind_of(cases[start])
+        lim = LIM.get(kind, chunk)
         end = start
-        while end < len(cases) and end - start < lim and (cases[end].get("run") == "sched") == sched:
+        while end < len(cases) and end - start < lim and kind_of(cases[end]) == kind:
             end += 1
         bounds.append((start, end))
         start = end
